@@ -142,6 +142,8 @@ def zbool(v):
             return v.t != 0
         if v.ty == REAL:
             return v.t != 0
+        if v.ty == STR:
+            return v.t != str_code('')           # a string is true unless it is empty
     if v is None:
         return z3.BoolVal(False)
     if isinstance(v, (int, float)):
@@ -894,7 +896,7 @@ class Engine:
                 return self.fresh_z(name, T)
             if T == 'none':
                 return None
-            if T == 'opaque':
+            if T in ('opaque', 'any'):     # 'any': no constraint on the argument at a call site; an opaque value in the unit
                 return Opaque(z3.Const(fresh_name(name), ValSort), name)
             if T == 'sigrow':           # one signal as an opaque value
                 return _opq(z3.Const(fresh_name(name), ValSort), z3.Int(fresh_name(name + '.len')))
@@ -1148,7 +1150,29 @@ class Engine:
         loops.exec_for(self, s)
 
     def st_Try(self, s):
-        raise Unsupported('try at line %d' % s.lineno)
+        """try / except (no finally): the body runs on the current state; an exception whose class one of the handlers
+        names (by its own name, or Exception / a bare except) continues in that handler with whatever the body had
+        already done; anything else propagates"""
+        if s.finalbody:
+            raise Unsupported('try/finally at line %d' % s.lineno)
+        try:
+            self.exec_block(s.body)
+        except RaiseSig as sig:
+            for h in s.handlers:
+                names = []
+                if h.type is None:
+                    names = None
+                elif isinstance(h.type, ast.Tuple):
+                    names = [ast.unparse(e).split('.')[-1] for e in h.type.elts]
+                else:
+                    names = [ast.unparse(h.type).split('.')[-1]]
+                if names is None or sig.cls in names or 'Exception' in names or 'BaseException' in names:
+                    if h.name:
+                        self.st.env[h.name] = Opaque(z3.Const(fresh_name('exc'), ValSort), 'exception')
+                    self.exec_block(h.body)
+                    return
+            raise
+        self.exec_block(s.orelse)
 
     # ------------------------------------------------------------------ assignment
     def assign(self, target, v):
@@ -1555,6 +1579,9 @@ class Engine:
             if isinstance(x, (Arr, Frame, SDict, Obj, PyList)):
                 return getattr(a, 'ident', -1) == getattr(b, 'ident', -2) and \
                     getattr(a, 'off', 0) is getattr(b, 'off', 0)
+        if isinstance(a, Opaque) and isinstance(b, Opaque):
+            # opaque values have no identity beyond their term: the very same python object, or provably the same value
+            return True if a is b else Z(a.t == b.t, BOOL)
         raise Unsupported('is on %r, %r' % (a, b))
 
     def eq(self, a, b):
